@@ -6,7 +6,7 @@ from pyvc import engine as E
 from pyvc.logic import (Rope, as_rope, is_sym, land, lor, lnot, implies, iff, eq, ite, seg)
 from pyvc.engine import Ref, HObj, HList, SStr, Dec, OStr, Undecided, PyRaise, mk_str, PStr
 from pyvc.verify import NS
-from .common import (repo, HARD, N, sym_prv_node, sym_pub_node, serP, spec_prv_ckd_terms, spec_pub_ckd_terms)
+from .common import (is_obj, repo, HARD, N, sym_prv_node, sym_pub_node, serP, spec_prv_ckd_terms, spec_pub_ckd_terms)
 from . import summaries as SUM
 from .c_wallet_utils import sym_index_list, fmt_path
 from .c_base_wallet import sym_wallet
@@ -246,7 +246,7 @@ def node_chain_clauses(c, node_ref, root_ref, levels, path, private, testnet, ro
     """the returned node and its ancestors carry the spec values level by level"""
     cur = node_ref
     for i in range(len(levels) - 1, -1, -1):
-        ok = isinstance(cur, Ref) and isinstance(c.deref(cur), HObj)
+        ok = isinstance(cur, Ref) and is_obj(c, cur)
         yield f"ensures.level[{i}].is_node", ok
         if not ok:
             return
